@@ -53,7 +53,7 @@ INTERP_VARIANTS = [{"flags": ["-O"], "runs": {"quick": 2000, "thorough": 40000},
 PROBES = ["shortcut_taken", "rescan_forced_by_other_handle", "rescan_after_failed_put", "flush_by_bufsize_threshold", "key_255", "key_256_rejected",
           "direct_raw_write", "dup_rejected", "readonly_write_rejected", "closed_handle_rejected", "clone_used", "queued_key_read_in_session",
           "history_len_le_6", "badvalue_rejected", "put_left_in_the_queue", "create_existing_rejected", "explicit_flush",
-          "multibyte_key_stored", "multibyte_key_oversize_in_bytes_only", "reopened_without_explicit_mode"]
+          "multibyte_key_stored", "multibyte_key_oversize_in_bytes_only", "reopened_without_explicit_mode", "session_left_by_callers_exception"]
 
 
 def pre_checks(tier):
@@ -175,6 +175,9 @@ def gen_plan(r, tier, index):
         c = r.random()
         if c < 0.16:
             ops.append({"op": "close" if typ == "ukv" else "end", "h": h})
+            if typ == "coll" and state["mode"] == "a" and r.random() < 0.25:
+                # the session is left by an exception of the caller's: every put that RETURNED is a successful put all the same
+                ops[-1]["op"] = "abort"
             state["open"] = None
             continue
         if c < 0.55:
@@ -391,6 +394,32 @@ def run_plan(plan, trace=False):
                         stale_or_fail[0] = True
                     fresh_check("begin-writing-readonly", h)
                     outcome_seq.append(("begin_w_readonly",))
+                elif o == "abort":
+                    if not h["open"]:
+                        continue
+                    h["open"] = False
+                    exc_ = RuntimeError("caller's exception inside the writing session")
+                    try:
+                        swallowed = h["cm"].__exit__(RuntimeError, exc_, None)
+                    except RuntimeError as e2:
+                        swallowed = False
+                        if e2 is not exc_:
+                            viol("session-end-raises-without-cause", "abort", h, f"{e2!r}")
+                    except Exception as e2:  # noqa: BLE001
+                        if not (h.get("pending_dups") or h.get("pending_oversize")):
+                            viol("session-end-raises-without-cause", "abort", h, f"{e2!r}")
+                        swallowed = False
+                    if swallowed:
+                        viol("session-swallowed-the-callers-exception", "abort", h, "writing() suppressed the exception raised inside it")
+                    h["pending_dups"] = []
+                    h["pending_oversize"] = []
+                    h["cm"] = None
+                    res.stats["probe:session_left_by_callers_exception"] += 1
+                    stale_or_fail[0] = True
+                    if kern.fds_of(0, kind="file"):
+                        viol("file-left-open-after-session", "abort", h, f"{[(kern.canon(f.path)) for f in kern.fds_of(0, kind='file')]}")
+                    fresh_check("abort", h)
+                    outcome_seq.append(("abort",))
                 elif o == "end":
                     if not h["open"]:
                         continue
